@@ -610,7 +610,7 @@ def corpus():
 
 # ----------------------------------------------------------------- the check
 def run(ck: common.Check):
-    ck.prove(["GeffProps.C17"])
+    ck.prove(["GeffProps.C17", "GeffProps.C17Links"])
     ck.rule = ("cases = corpus + one-property stores for every trailing shape over {1,2} up to rank 4 x N in {0,1,2,5} x "
                "missing {none, all false, some} x {int64,float64,bool,str} (all in thorough, a seeded half in quick) + seeded "
                "random stores (N,E in {0,1,2,5}, 0-3 node and 0-2 edge properties, rank 1-4 with dims in {0,1,2,3,4}, all "
